@@ -86,6 +86,13 @@ def stepST (toks : List String) : Option String :=
       let r := Merge2D.merge2 op fa fb
       pure (if r.isEmpty then "_" else ";".intercalate (r.map fun e => s!"{showRng e.1}@{showRngs e.2}"))
     | _, _ => pure "not-flat"
+  | ["st_fromobs", a] => do
+    let a ← parseST a
+    match toFlat a with
+    | some fa =>
+      let r := Consistent2D.fromObservations fa
+      pure (if r.isEmpty then "_" else ";".intercalate (r.map fun e => s!"{showRng e.1}@{showRngs e.2}"))
+    | none => pure "not-flat"
   | ["st_mkc", a] => do
     let a ← parseST a
     match toFlat a with
